@@ -369,6 +369,11 @@ def check_static(spec):
         raise Violation("static:add_item", "")
     if len(items) == 1 and MW.get_item(mode, items[0], "bare") != "bare":
         raise Violation("static:get_item-bare", "")
+    if len(items) == 1:
+        marker = object()
+        bare = torch.zeros(3, 2)
+        if MW.get_item(mode, items[0], MW.set_item(mode, items[0], bare, marker)) is not marker:
+            raise Violation("static:set-get-roundtrip-bare-batch", "set_item on a single-item (bare) batch does not return the value")
     return Case(len(items) >= 2, [], 1)
 
 
